@@ -18,7 +18,7 @@ DRIVERS: dict[str, list[list[str]]] = {
     "C04": [["drivers/sendpaths.py"], ["drivers/tls_send.py"]],
     "C12": [["drivers/tls_send.py"], ["drivers/fair_lock.py"]],
     "C11": [["drivers/budget.py"]],
-    "C09": [["drivers/replay_f12_tls_close_unread.py"]],
+    "C09": [["drivers/replay_f12_tls_close_unread.py"], ["drivers/client_tls_defaults.py"]],
     "C05": [["drivers/framings.py", "--oneshot"], ["drivers/asyncio_datagram.py"]],
     "C06": [["drivers/framings.py"], ["drivers/framings.py", "--oneshot"], ["drivers/streams.py", "--max-len", "5"], ["drivers/streams.py", "--mode", "directed"]],
     "C20": [["drivers/flow_control.py"]],
